@@ -62,6 +62,9 @@ def _open_of(func, call, fh):
 
 
 def run(db: ProgramDB, chk) -> None:
+    from ..specs.discipline import check_pickle_hooks
+    check_pickle_hooks(db, chk, "C19.R4-default-pickling", "hta.analyzers.critical_path_analysis", ["CPNode", "CPEdge", "_CPGraphData"])
+    chk.floor("C19.R4-default-pickling", 6)
     m = db.mod(MOD)
     data_cls = m.cls("_CPGraphData")
     save = m.func("CPGraph.save")
